@@ -83,7 +83,120 @@ def all_configs() -> typing.List[dict]:
 
 
 def cfg_key(c: dict) -> str:
-    return '%s/%s/%s' % (c['lang'], c.get('std') or '-', 'pod' if c['pod'] else 'ser')
+    k = '%s/%s/%s' % (c['lang'], c.get('std') or '-', 'pod' if c['pod'] else 'ser')
+    if c.get('opts'):
+        k += '/' + '+'.join(o.lstrip('-') for o in c['opts'])
+    return k
+
+
+# ---------------------------------------------------------------------------------------------
+# language options: regenerated from properties.yaml + the CLI's "language options" argument group; fail closed when unclassified
+# ---------------------------------------------------------------------------------------------
+FREE_TEXT_OPTIONS = {'cast_format'}      # free text, no CLI flag: reachable through --configuration only; not a matrix dimension
+NON_OPTION_FLAGS = {'--configuration', '--list-configuration'}
+
+
+def language_option_matrix() -> typing.Tuple[typing.Dict[str, typing.List[typing.List[str]]], typing.List[str], dict]:
+    """per target language the non-default settings of every boolean / enumerated language option as CLI argument lists, e.g.
+    ['--target-endianness', 'big'].  Every option key of properties.yaml must be classified: set by a boolean or enumerated flag of the
+    CLI's language-option group, implied by --language-standard (keys of the `defaults` presets, std, std_flavor), or listed free text.
+    Every flag of that group must set a known key.  Anything else is reported (fail closed)."""
+    import ast
+    import yaml
+    problems: typing.List[str] = []
+    dims: typing.Dict[str, typing.List[typing.List[str]]] = {'c': [], 'cpp': [], 'py': []}
+    info: dict = {}
+    try:
+        props = yaml.safe_load(open(os.path.join(core.REPO, 'src', 'nunavut', 'lang', 'properties.yaml'), encoding='utf-8'))
+        tree = ast.parse(open(os.path.join(core.REPO, 'src', 'nunavut', 'cli', '__init__.py'), encoding='utf-8').read())
+    except Exception as ex:  # noqa
+        return dims, ['cannot read properties.yaml / cli: %r' % ex], info
+    flags: typing.Dict[str, dict] = {}
+    for n in ast.walk(tree):
+        if (isinstance(n, ast.Call) and isinstance(n.func, ast.Attribute) and n.func.attr == 'add_argument' and isinstance(n.func.value, ast.Name)
+                and n.func.value.id == 'ln_opt_group'):
+            names = [a.value for a in n.args if isinstance(a, ast.Constant) and isinstance(a.value, str)]
+            kw = {}
+            for k in n.keywords:
+                if k.arg in ('action', 'choices', 'nargs'):
+                    try:
+                        kw[k.arg] = ast.literal_eval(k.value)
+                    except ValueError:
+                        kw[k.arg] = '?'
+            long = [x for x in names if x.startswith('--')]
+            if long:
+                flags[long[0]] = kw
+    if not flags:
+        problems.append('no ln_opt_group.add_argument(...) found in cli/__init__.py')
+    used_flags = set()
+    for lang in ('c', 'cpp', 'py'):
+        sec = props.get('nunavut.lang.' + lang) or {}
+        opts = sec.get('options') or {}
+        presets = sec.get('defaults') or {}
+        via_standard = {'std', 'std_flavor'} | {k for p in presets.values() for k in (p or {})}
+        for key, default in opts.items():
+            flag = '--' + key.replace('_', '-')
+            if flag in flags:
+                used_flags.add(flag)
+                kw = flags[flag]
+                if kw.get('action') == 'store_true':
+                    if default is not False:
+                        problems.append('%s option %s: store_true flag but yaml default %r' % (lang, key, default))
+                    dims[lang].append([flag])
+                elif isinstance(kw.get('choices'), list):
+                    for v in kw['choices']:
+                        if v != default:
+                            dims[lang].append([flag, str(v)])
+                else:
+                    problems.append('%s option %s: CLI flag %s is neither boolean nor enumerated: unclassified' % (lang, key, flag))
+            elif key in via_standard:
+                continue
+            elif key in FREE_TEXT_OPTIONS:
+                continue
+            else:
+                problems.append('language option %s of nunavut.lang.%s is unclassified (no CLI flag, not implied by --language-standard, not listed '
+                                'free text): the compile matrix does not cover it' % (key, lang))
+    for f in flags:
+        if f not in used_flags and f not in NON_OPTION_FLAGS and f != '--language-standard':
+            problems.append('CLI language-option flag %s sets no option key of properties.yaml: unclassified' % f)
+    if '--language-standard' in flags:
+        ch = flags['--language-standard'].get('choices') or []
+        unknown = [x for x in ch if x not in CPP_STDS + ['c11', 'cetl++14-17']]
+        if unknown:
+            problems.append('--language-standard has values the compile matrix does not know: %s' % unknown)
+    info = {'flags': sorted(flags), 'dims': {k: [' '.join(x) for x in v] for k, v in dims.items()}}
+    return dims, problems, info
+
+
+def option_configs(dims: dict, rng, quick: bool) -> typing.List[dict]:
+    """configurations with non-default language options.  thorough: every single setting (C; C++ with the standard rotating) plus the
+    combination of all settings that do not exclude a type stratum; quick: that combination (endianness and standard by seed) plus one
+    rotating single setting per language."""
+    out: typing.List[dict] = []
+    for lang in ('c', 'cpp'):
+        singles = dims.get(lang) or []
+        if not singles:
+            continue
+        bools = [d for d in singles if len(d) == 1 and d[0] != '--omit-float-serialization-support']   # omit-float excludes float types (documented)
+        enums = [d for d in singles if len(d) == 2]
+        stds = [None] if lang == 'c' else CPP_STDS
+        combo = sum(bools, []) + (rng.choice(enums) if enums else [])
+        if quick:
+            out.append({'lang': lang, 'std': rng.choice(stds), 'pod': False, 'opts': combo})
+            out.append({'lang': lang, 'std': rng.choice(stds), 'pod': False, 'opts': rng.choice(singles)})
+        else:
+            for i, d in enumerate(singles):
+                out.append({'lang': lang, 'std': stds[i % len(stds)], 'pod': False, 'opts': d})
+            for e in (enums or [[]]):
+                out.append({'lang': lang, 'std': rng.choice(stds), 'pod': False, 'opts': sum(bools, []) + e})
+            out.append({'lang': lang, 'std': rng.choice(stds), 'pod': True, 'opts': combo})
+    # de-duplicate
+    seen, res = set(), []
+    for c in out:
+        if cfg_key(c) not in seen:
+            seen.add(cfg_key(c))
+            res.append(c)
+    return res
 
 
 def run_impl(cases, configs, workdir: str, index_base: int = 0, jobs: int = 6) -> typing.List[dict]:
@@ -416,6 +529,9 @@ class Builder:
 
     def command(self, j: Job, extra: typing.Sequence[str] = ()) -> typing.Tuple[typing.List[str], typing.Optional[str], typing.Optional[dict]]:
         tu = '#include "%s"\n' % j.rel
+        if '--enable-serialization-asserts' in (j.cfg.get('opts') or []):
+            # documented usage of the option: the user defines NUNAVUT_ASSERT (the support header #errors otherwise)
+            extra = list(extra) + (['-DNUNAVUT_ASSERT(x)=assert(x)'] if j.lang == 'c' else ['-DNUNAVUT_ASSERT(x)=static_cast<void>(x)'])
         if j.lang == 'c' and j.variant == 'c11':
             return ['gcc', '-std=c11'] + self.cflags + list(extra) + ['-fsyntax-only', '-I', j.out, '-x', 'c', '-'], tu, None
         if j.lang == 'c':
@@ -716,6 +832,10 @@ def judge(j: Job, builder: Builder, live: typing.Set[str], stats: dict) -> typin
         for f in explained_by:
             stats[f] = stats.get(f, 0) + 1
         return None
+    # documented exclusion of an option: --omit-float-serialization-support "will result in errors if floating point types are used"
+    if '--omit-float-serialization-support' in (j.cfg.get('opts') or []) and any('f' in re.sub(r'C:.*', '', a) for t in j.clos for a in t['attrs']):
+        stats['EXCLUDED-OMIT-FLOAT'] = stats.get('EXCLUDED-OMIT-FLOAT', 0) + 1
+        return None
     # the property's own exclusion (not a finding): names folded onto one identifier by the documented one-way stropping
     folded = strop_folded(j)
     if folded:
@@ -810,9 +930,9 @@ def main(chk: core.Check, replay: typing.Optional[str] = None) -> int:
         if 'c_pod_selfsufficient' not in facts:
             broken.append('model driver does not report its facts')
         else:
-            pod_listed = chk.is_known('F-C06-C-POD')
+            # status known: the tables must agree with the probe; status fixed / not listed: they must say self-sufficient
             pod_live = 'F-C06-C-POD' in live
-            if pod_listed and facts['c_pod_selfsufficient'] == pod_live:
+            if facts['c_pod_selfsufficient'] == pod_live:
                 broken.append('C06_std_includes_cover_c_pod_iff: the regenerated tables say POD C headers are %sself-sufficient but the compile probe of '
                               'F-C06-C-POD says the finding %s' % ('' if facts['c_pod_selfsufficient'] else 'NOT ', 'reproduces' if pod_live else 'does not reproduce'))
     quirk_union = bool(facts.get('q_union_live', False))
@@ -845,6 +965,21 @@ def main(chk: core.Check, replay: typing.Optional[str] = None) -> int:
                         outs.append(None)
                     outs[i] = r_
 
+    # language options (regenerated; fail closed): extra configurations on the fixed corpora (quick) / those + the first random cases (thorough)
+    opt_dims, opt_problems, opt_info = language_option_matrix()
+    for pr in opt_problems:
+        broken.append('language option matrix: ' + pr)
+    extra_cfgs = option_configs(opt_dims, chk.rng, quick) if not replay else []
+    opt_cases = [i for i in range(len(cases)) if i < 2 or (not quick and i < 2 + n_wit + 8)] if extra_cfgs else []
+    opt_cases = [i for i in opt_cases if outs[i] is not None and outs[i].get('valid')]
+    for b in range(0, len(opt_cases), batch):
+        sel = opt_cases[b:b + batch]
+        res_sel = run_impl([cases[i] for i in sel], extra_cfgs, wd, index_base=5000 + b, jobs=6)
+        for i, r_ in zip(sel, res_sel):
+            if r_.get('valid') and 'runs' in r_:
+                outs[i]['runs'].update(r_['runs'])
+    opt_case_set = set(opt_cases)
+
     stats: typing.Dict[str, typing.Any] = {'cases': len(cases), 'valid': 0, 'rejected_by_pydsdl': 0, 'types': 0, 'nnvg_runs': 0, 'compile_jobs': 0,
                                            'known_finding_instances': {}, 'model_files_compared': 0, 'kinds': {'S': 0, 'U': 0, 'V': 0},
                                            'deprecated': 0, 'empty_sections': 0, 'cross_root_refs': 0, 'max_namespace_depth': 0}
@@ -871,7 +1006,8 @@ def main(chk: core.Check, replay: typing.Optional[str] = None) -> int:
             stats['cross_root_refs'] += sum(1 for a in t['attrs'] if 'C:' in a and not a[a.index('C:') + 2:].startswith(t['root'] + '.')
                                             and not a[a.index('C:') + 2:].startswith(t['root'] + ':'))
             distinct.add(json.dumps([t['full_name'], t['kind'], t['attrs'], sorted(t['names'])]))
-        for cfg in configs:
+        cfgs_here = configs + (extra_cfgs if ci in opt_case_set else [])
+        for cfg in cfgs_here:
             run = r['runs'].get(cfg_key(cfg))
             if run is None:
                 continue
@@ -885,10 +1021,10 @@ def main(chk: core.Check, replay: typing.Optional[str] = None) -> int:
             if ok_model:
                 requests.append(model_lines(r, cfg, quirk_union))
                 req_index.append((ci, cfg))
-        ccfgs = configs
+        ccfgs = cfgs_here
         if quick:
             keep_pod = {'c++14', chk.rng.choice(CPP_STDS[1:])}
-            ccfgs = [c for c in configs if not (c['lang'] == 'cpp' and c['pod'] and c['std'] not in keep_pod)]
+            ccfgs = [c for c in cfgs_here if c.get('opts') or not (c['lang'] == 'cpp' and c['pod'] and c['std'] not in keep_pod)]
         jobs += make_jobs(ci, r, ccfgs)
 
     # model vs implementation
@@ -924,6 +1060,8 @@ def main(chk: core.Check, replay: typing.Optional[str] = None) -> int:
     stats['reserved_patterns_total'] = len(cov)
     stats['hostile_names_used'] = len(names)
     stats['flags'] = builder.flag_source
+    stats['language_options'] = opt_info
+    stats['option_configs'] = [cfg_key(c) for c in extra_cfgs]
     stats['probe'] = probe_detail
 
     chk.coverage.update({
